@@ -24,7 +24,7 @@ fn outline(files: &[(&str, &str)], which: usize) -> Vec<String> {
 fn outline_lists_the_declarations_in_source_order() {
     let t = "class Base<int w, string n = \"x\"> { int width = w; string name = n; }\ndef d0 : Base<8> { let width = 16; }\nmulticlass M<int x> { defvar q = x; }\ndefset list<Base> S = { def s0 : Base<5>; def s1 : Base<6>; }\nclass Later;\ndefm m : M<1>;\n";
     let got = outline(&[("/main.td", t)], 0);
-    let want = vec!["class Base @Base", "  targ w @w", "  targ n @n", "  field width @width", "  field name @name", "def d0 @d0", "  field width @width", "multiclass M @M",
+    let want = vec!["class Base @Base", "  targ w @w", "  targ n @n", "  field width @width", "  field name @name", "def d0 @d0", "  field width @width", "multiclass M @M", "  targ x @x",
                     "defset S @S", "  def s0 @s0", "  def s1 @s1", "class Later @Later"];
     assert_eq!(got, want.iter().map(|s| s.to_string()).collect::<Vec<_>>(), "WITNESS outline of {t:?}");
 }
@@ -44,4 +44,11 @@ fn a_def_inside_a_defset_keeps_its_field_children() {
     let t = "class Base<int w> { int width = w; int depth = 0; }\ndefset list<Base> S = {\n  def s0 : Base<5> { let width = 1; int extra = 2; }\n  def s1 : Base<6>;\n}\n";
     assert_eq!(outline(&[("/main.td", t)], 0), vec!["class Base @Base", "  targ w @w", "  field width @width", "  field depth @depth", "defset S @S", "  def s0 @s0", "    field width @width", "    field extra @extra", "  def s1 @s1"],
         "WITNESS outline of {t:?}");
+}
+#[test]
+fn anonymous_defs_are_not_listed_and_multiclass_template_arguments_are_children() {
+    // (where the named defs of a multiclass body appear is not fixed by the property: they are left out of the comparison)
+    let t = "class A;\ndef : A;\nmulticlass M<int x, string s = \"d\"> { def _one : A; }\ndef named : A;\n";
+    let got: Vec<String> = outline(&[("/main.td", t)], 0).into_iter().filter(|l| !l.contains("_one")).collect();
+    assert_eq!(got, vec!["class A @A", "multiclass M @M", "  targ x @x", "  targ s @s", "def named @named"], "WITNESS outline of {t:?}");
 }
